@@ -1,0 +1,86 @@
+//go:build verif
+
+// Contracts for the deductive checker in /verif (read only with -tags verif; no executable code
+// except ghost lemma functions, which are never called).
+
+package padding
+
+//@ func (pkcs7Padding).Pad property C18
+//@   requires 1 <= pad && pad <= 255
+//@   ensures len(result) == len(src) + (pad - len(src) % pad)
+//@   ensures len(result) % pad == 0
+//@   ensures forall i :: 0 <= i && i < len(src) ==> result[i] == old(src[i])
+//@   ensures forall i :: len(src) <= i && i < len(result) ==> result[i] == len(result) - len(src)
+//@   ensures cap(src) >= len(result) ==> sameslice(result, src[:len(result)])
+//@   ensures cap(src) < len(result) ==> fresh(result)
+//@   modifies src[len(src)..cap(src)]
+//@   loop 1 invariant 0 <= i && i <= overhead
+//@   loop 1 invariant forall j :: len(src) <= j && j < len(src) + i ==> ret[j] == overhead
+//@   loop 1 invariant forall j :: 0 <= j && j < len(src) ==> ret[j] == old(src[j])
+//@   loop 1 invariant onlychanged(ret[len(src):])
+//@   loop 1 decreases overhead - i
+
+//@ func (pkcs7Padding).Unpad property C18
+//@   requires 1 <= pad && pad <= 255
+//@   ensures err == nil ==> len(src) > 0 && len(src) % pad == 0
+//@   ensures err == nil ==> sameslice(result, src[:len(result)]) && len(result) < len(src) && len(src) - len(result) <= pad
+//@   ensures err == nil ==> forall i :: len(result) <= i && i < len(src) ==> src[i] == len(src) - len(result)
+//@   ensures err != nil ==> result == nil
+//@   ensures (len(src) > 0 && len(src) % pad == 0 && 1 <= src[len(src)-1] && src[len(src)-1] <= pad
+//@+           && forall i :: len(src) - src[len(src)-1] <= i && i < len(src) ==> src[i] == src[len(src)-1])
+//@+           ==> err == nil && len(result) == len(src) - src[len(src)-1]
+//@   modifies nothing
+//@   loop 1 invariant -1 <= rangeindex && rangeindex < paddedLen - 1
+//@   loop 1 invariant forall j :: srcLen - paddedLen <= j && j <= srcLen - paddedLen + rangeindex ==> src[j] == paddedLen
+//@   loop 1 decreases paddedLen - rangeindex
+
+//@ func (ansiX923Padding).Pad property C18
+//@   requires 1 <= pad && pad <= 255
+//@   ensures len(result) == len(src) + (pad - len(src) % pad)
+//@   ensures len(result) % pad == 0
+//@   ensures forall i :: 0 <= i && i < len(src) ==> result[i] == old(src[i])
+//@   ensures forall i :: len(src) <= i && i < len(result) - 1 ==> result[i] == 0
+//@   ensures result[len(result)-1] == len(result) - len(src)
+//@   ensures cap(src) >= len(result) ==> sameslice(result, src[:len(result)])
+//@   ensures cap(src) < len(result) ==> fresh(result)
+//@   modifies src[len(src)..cap(src)]
+
+//@ func (ansiX923Padding).Unpad property C18
+//@   requires 1 <= pad && pad <= 255
+//@   ensures err == nil ==> len(src) > 0 && len(src) % pad == 0
+//@   ensures err == nil ==> sameslice(result, src[:len(result)]) && len(result) < len(src) && len(src) - len(result) <= pad
+//@   ensures err == nil ==> src[len(src)-1] == len(src) - len(result)
+//@   ensures err == nil ==> forall i :: len(result) <= i && i < len(src) - 1 ==> src[i] == 0
+//@   ensures err != nil ==> result == nil
+//@   ensures (len(src) > 0 && len(src) % pad == 0 && 1 <= src[len(src)-1] && src[len(src)-1] <= pad
+//@+           && forall i :: len(src) - src[len(src)-1] <= i && i < len(src) - 1 ==> src[i] == 0)
+//@+           ==> err == nil && len(result) == len(src) - src[len(src)-1]
+//@   modifies nothing
+//@   loop 1 invariant -1 <= rangeindex && rangeindex < paddedLen - 1
+//@   loop 1 invariant forall j :: srcLen - paddedLen <= j && j <= srcLen - paddedLen + rangeindex ==> src[j] == 0
+//@   loop 1 decreases paddedLen - rangeindex
+
+//@ func (iso9797M2Padding).Pad property C18,C19
+//@   requires 1 <= pad && pad <= 255
+//@   ensures len(result) == len(src) + (pad - len(src) % pad)
+//@   ensures len(result) % pad == 0
+//@   ensures forall i :: 0 <= i && i < len(src) ==> result[i] == old(src[i])
+//@   ensures result[len(src)] == 128
+//@   ensures forall i :: len(src) < i && i < len(result) ==> result[i] == 0
+//@   ensures cap(src) >= len(result) ==> sameslice(result, src[:len(result)])
+//@   ensures cap(src) < len(result) ==> fresh(result)
+//@   modifies src[len(src)..cap(src)]
+
+//@ func (iso9797M2Padding).Unpad property C18,C19
+//@   requires 1 <= pad && pad <= 255
+//@   ensures err == nil ==> len(src) > 0 && len(src) % pad == 0
+//@   ensures err == nil ==> sameslice(result, src[:len(result)]) && len(result) < len(src) && len(src) - len(result) <= pad
+//@   ensures err == nil ==> src[len(result)] == 128
+//@   ensures err == nil ==> forall i :: len(result) < i && i < len(src) ==> src[i] == 0
+//@   ensures err != nil ==> result == nil
+//@   ensures forall k :: (len(src) > 0 && len(src) % pad == 0 && len(src) - pad <= k && k < len(src) && src[k] == 128
+//@+           && (forall j :: k < j && j < len(src) ==> src[j] == 0)) ==> err == nil && len(result) == k
+//@   modifies nothing
+//@   loop 1 invariant -1 <= i && i < pad
+//@   loop 1 invariant forall j :: srcLen - pad + i < j && j < srcLen ==> src[j] == 0
+//@   loop 1 decreases i + 1
